@@ -59,7 +59,8 @@ func (e pkgex) Extract(ctx context.Context, in *filesystem.ScanInput) (inventory
 	var ps []*extractor.Package
 	for _, l := range strings.Split(string(b), "\n") {
 		if l != "" {
-			ps = append(ps, &extractor.Package{Name: l, Version: "1", Locations: []string{in.Path}})
+			name, ver, _ := strings.Cut(l, " ")
+			ps = append(ps, &extractor.Package{Name: name, Version: ver, Locations: []string{in.Path}})
 		}
 	}
 	return inventory.Inventory{Packages: ps}, nil
@@ -68,6 +69,22 @@ func (pkgex) ToPURL(p *extractor.Package) *purl.PackageURL {
 	return &purl.PackageURL{Type: purl.TypeGeneric, Name: p.Name, Version: p.Version}
 }
 func (pkgex) Ecosystem(p *extractor.Package) string { return "" }
+
+// A package id (one digit 1..8 of the case line) is a (name, version) pair; names are SHARED between
+// ids: id d and id d+4 are the same name at versions 1 and 2 (purls that differ only in the version).
+func pkgLine(d rune) string {
+	n := int(d - '0')
+	return fmt.Sprintf("p%d %d", (n-1)%4+1, (n-1)/4+1)
+}
+
+func pkgID(name, version string) string {
+	n, err1 := strconv.Atoi(strings.TrimPrefix(name, "p"))
+	v, err2 := strconv.Atoi(version)
+	if err1 != nil || err2 != nil {
+		return "?" + name + "@" + version
+	}
+	return strconv.Itoa(n + 4*(v-1))
+}
 
 type layer struct {
 	empty bool
@@ -144,7 +161,7 @@ func run(c tcase) string {
 					case op[0] == 'w' || op[0] == 's':
 						var sb strings.Builder
 						for _, d := range op[1:] {
-							sb.WriteString("p" + string(d) + "\n")
+							sb.WriteString(pkgLine(d) + "\n")
 						}
 						if op[0] == 'w' {
 							es = append(es, imgx.TarEnt{Name: files[f], Typ: tar.TypeReg, Body: sb.String()})
@@ -226,7 +243,7 @@ func run(c tcase) string {
 					f = i
 				}
 			}
-			name := strings.TrimPrefix(p.Name, "p")
+			name := pkgID(p.Name, p.Version)
 			if p.LayerDetails == nil {
 				toks = append(toks, fmt.Sprintf("f%dp%s@nil", f, name))
 				continue
@@ -250,7 +267,8 @@ func run(c tcase) string {
 // ---------------------------------------------------------------- generators
 
 func randPkgs(r *rand.Rand, prev string) string {
-	// mostly an edit of what the file held before (add / remove / keep individual packages)
+	// mostly an edit of what the file held before: add / remove / keep individual packages, bump the
+	// version of one (id d -> d+4: a NEW package, same name), or add the other version next to it
 	set := map[byte]bool{}
 	if prev != "" && r.Intn(4) != 0 {
 		for i := 1; i < len(prev); i++ {
@@ -260,11 +278,29 @@ func randPkgs(r *rand.Rand, prev string) string {
 		}
 	}
 	for n := r.Intn(3); n > 0; n-- {
-		set["1234"[r.Intn(4)]] = true
+		set["12345678"[r.Intn(8)]] = true
+	}
+	other := func(d byte) byte {
+		if d <= '4' {
+			return d + 4
+		}
+		return d - 4
+	}
+	for _, d := range []byte("12345678") {
+		if !set[d] {
+			continue
+		}
+		switch r.Intn(8) {
+		case 0: // version bump
+			delete(set, d)
+			set[other(d)] = true
+		case 1: // both versions side by side
+			set[other(d)] = true
+		}
 	}
 	var ds []byte
-	for _, d := range []byte("1234") {
-		if set[d] {
+	for _, d := range []byte("12345678") {
+		if set[d] && len(ds) < 5 {
 			ds = append(ds, d)
 		}
 	}
@@ -319,11 +355,12 @@ func randCase(r *rand.Rand) tcase {
 	return c
 }
 
-// exhaustive: every history of 1..4 entries over ONE file with packages {1,2}: each entry is an empty
-// layer, or a layer that keeps / deletes / writes {} {1} {2} {1,2} {2,1} / symlinks to {1} {1,2};
-// each once without cancellation and once cancelled after the first re-extraction.
+// exhaustive: every history of 1..4 entries over ONE file with the packages 1 = p1@1, 5 = p1@2 (same name,
+// two versions) and 2 = p2@1: each entry is an empty layer, or a layer that keeps / deletes / writes {} {1}
+// {5} {1,5} {5,1} {1,2} / symlinks to {1} {1,5}; each once without cancellation and (3-4 entries) once
+// cancelled after the first re-extraction.
 func exhaustive(emit func(tcase)) {
-	opts := []string{"E", "k", "d", "w", "w1", "w2", "w12", "w21", "s1", "s12"}
+	opts := []string{"E", "k", "d", "w", "w1", "w5", "w15", "w51", "w12", "s1", "s15"}
 	for n := 1; n <= 4; n++ {
 		total := 1
 		for i := 0; i < n; i++ {
